@@ -62,8 +62,10 @@ import (
 	"encoding/binary"
 	"fmt"
 	"net"
+	"net/http"
 	"os"
 	"reflect"
+	"runtime"
 	"sort"
 	"strconv"
 	"strings"
@@ -73,6 +75,7 @@ import (
 	"testing/synctest"
 	"time"
 
+	"github.com/gorilla/websocket"
 	"github.com/named-data/ndnd/fw/core"
 	"github.com/named-data/ndnd/fw/defn"
 	"github.com/named-data/ndnd/fw/dispatch"
@@ -566,6 +569,11 @@ func classify(kind, addr string) string {
 			return "err"
 		}
 		return scopeText(t.Scope())
+	case "ws", "wsf":
+		// a WebSocket face accepted by the real listener handler from a TCP peer with address <addr>;
+		// kind wsf: the client's handshake additionally CLAIMS to come from 127.0.0.1 (X-Forwarded-For,
+		// X-Real-IP, Forwarded) - only the TCP peer address decides the scope
+		return classifyWebSocket(addr, kind == "wsf")
 	case "udp4", "udp6":
 		v := 4
 		if kind == "udp6" {
@@ -700,6 +708,88 @@ func concurrentFaces(k int) string {
 		return "ok"
 	}
 	return fmt.Sprintf("clash rounds=%d accepted=%d", clash, accepted)
+}
+
+// peerListener hands out connections that report <peer> as their remote address.
+type peerListener struct {
+	net.Listener
+	peer net.Addr
+}
+
+type peerConn struct {
+	net.Conn
+	peer net.Addr
+}
+
+func (c peerConn) RemoteAddr() net.Addr { return c.peer }
+
+func (l peerListener) Accept() (net.Conn, error) {
+	c, err := l.Listener.Accept()
+	if err != nil {
+		return nil, err
+	}
+	return peerConn{c, l.peer}, nil
+}
+
+func classifyWebSocket(addr string, claimLoopback bool) string {
+	ip := net.ParseIP(addr)
+	if ip == nil {
+		return "bad-op"
+	}
+	burnFaceIDs()
+	l, err := face.NewWebSocketListener(face.WebSocketListenerConfig{Bind: "127.0.0.1", Port: 9696})
+	if err != nil {
+		return "err"
+	}
+	inner, err := net.Listen("tcp4", "127.0.0.1:0")
+	if err != nil {
+		return "err"
+	}
+	srv := &http.Server{Handler: face.VerifWebSocketHandler(l)}
+	served := make(chan struct{})
+	go func() {
+		srv.Serve(peerListener{inner, &net.TCPAddr{IP: ip, Port: 40000}})
+		close(served)
+	}()
+	defer func() { srv.Close(); <-served }()
+	before := map[uint64]bool{}
+	for _, f := range face.FaceTable.GetAll() {
+		before[f.FaceID()] = true
+	}
+	hdr := http.Header{}
+	if claimLoopback {
+		hdr.Set("X-Forwarded-For", "127.0.0.1")
+		hdr.Set("X-Real-IP", "127.0.0.1")
+		hdr.Set("Forwarded", "for=127.0.0.1")
+	}
+	c, _, err := websocket.DefaultDialer.Dial("ws://"+inner.Addr().String()+"/", hdr)
+	if err != nil {
+		return "err"
+	}
+	// the handler registers the face right after the handshake (no fake time passes: goroutines in
+	// network I/O keep the bubble's clock still, so spin instead of sleeping)
+	var got face.LinkService
+	for i := 0; i < 2000000 && got == nil; i++ {
+		for _, f := range face.FaceTable.GetAll() {
+			if !before[f.FaceID()] && f.RemoteURI() != nil && f.RemoteURI().Scheme() == "wsclient" {
+				got = f
+			}
+		}
+		if got == nil {
+			runtime.Gosched()
+		}
+	}
+	res := "err"
+	if got != nil {
+		res = scopeText(got.Scope())
+	}
+	c.Close()
+	if got != nil {
+		for i := 0; i < 2000000 && face.FaceTable.Get(got.FaceID()) != nil; i++ {
+			runtime.Gosched()
+		}
+	}
+	return res
 }
 
 // Exec runs one operation against the real code.
